@@ -91,6 +91,21 @@ live_del(void * p)
 	/* Not one of ours (allocated before tracking started): fine. */
 }
 
+/* Is this block (allocated by library code) still allocated? */
+int
+wh_is_live(const void * p)
+{
+	size_t i;
+
+	if (p == NULL)
+		return (0);
+	for (i = 0; i < WH_MAXLIVE; i++) {
+		if (live[i] == p)
+			return (1);
+	}
+	return (0);
+}
+
 void *
 __wrap_malloc(size_t n)
 {
